@@ -431,18 +431,21 @@ static iwrc _exfile_copy(struct IWFS_EXT *f, off_t off, size_t siz, off_t noff) 
   iwrc rc = _exfile_rlock(f);
   RCRET(rc);
   EXF *impl = f->impl;
+  // The destination must be inside the file (and below maxoff) whatever path serves the copy
+  rc = _exfile_ensure_size_lw(f, noff + siz);
+  RCGO(rc, finish);
   MMAPSLOT *s = impl->mmslots;
-  if (s && s->mmap && (s->off == 0) && (s->len >= noff + siz)) { // fully mmaped file
-    rc = _exfile_ensure_size_lw(f, noff + siz);
-    RCRET(rc);
+  if (  s && s->mmap && (s->off == 0)
+     && (s->len >= noff + siz) && (s->len >= off + siz)) { // source and destination are in the first window
     if (impl->dlsnr) {
       rc = impl->dlsnr->onwrite(impl->dlsnr, noff, s->mmap + off, siz, 0);
-      RCRET(rc);
+      RCGO(rc, finish);
     }
     memmove(s->mmap + noff, s->mmap + off, siz);
   } else {
     IWRC(impl->file.copy(&impl->file, off, siz, noff), rc);
   }
+finish:
   IWRC(_exfile_unlock(f), rc);
   return rc;
 }
